@@ -120,7 +120,7 @@ func (s *c17Sink) processEntities(_ *Runner, entities []*server.Entity) error {
 	}
 	return nil
 }
-func (s *c17Sink) startFullSync(*Runner) error                  { return nil }
+func (s *c17Sink) startFullSync(*Runner) error                { return nil }
 func (s *c17Sink) endFullSync(context.Context, *Runner) error { return nil }
 
 type c17RecHandler struct {
@@ -649,7 +649,7 @@ func (s *c17RerunSink) processEntities(*Runner, []*server.Entity) error {
 	}
 	return nil
 }
-func (s *c17RerunSink) startFullSync(*Runner) error                  { return nil }
+func (s *c17RerunSink) startFullSync(*Runner) error                { return nil }
 func (s *c17RerunSink) endFullSync(context.Context, *Runner) error { return nil }
 
 func (env *c17Env) rerun(c c17RerunCase) (problem, infra string, inconclusive bool) {
